@@ -48,6 +48,8 @@ class Exec {
   void on_dispatch(int ci, DBusConnection *conn, DBusMessage *msg);
   void after_event();
   void resolve_choices();
+  void check_limits_whitebox();
+  bw::BusLimits lim_cfg;
   void sync_names();
   std::set<std::string> ever_names;
   std::vector<int> actual_queue(const std::string &name);
